@@ -186,9 +186,22 @@ class Calls(Interp):
             raise Unsupported("call of abstract method %s without a contract" % fi.fid)
         return self.inline(fi, args, kwargs)
 
+    HARMLESS_DECORATORS = {"staticmethod", "classmethod", "property", "abstractmethod", "setter", "getter", "wraps", "overload"}
+
+    def check_decorators(self, fi):
+        """A decorator may change what a call of the function does (a cache, a retry, a wrapper): only the ones that do not are ignored; any other
+        decorator on a function whose BODY the proof uses puts the function outside the subset (exit 2), unless the contract module lists it."""
+        allowed = self.HARMLESS_DECORATORS | set(getattr(self.reg, "transparent_decorators", ()))
+        for d in fi.node.decorator_list:
+            t = d.func if isinstance(d, ast.Call) else d
+            dn = t.id if isinstance(t, ast.Name) else (t.attr if isinstance(t, ast.Attribute) else None)
+            if dn not in allowed:
+                raise Unsupported("function %s carries the decorator %s, whose effect on calls is not modelled" % (fi.fid, ast.unparse(d)))
+
     def inline(self, fi, args, kwargs):
         if self.call_depth > 12:
             raise Unsupported("inlining depth exceeded at %s" % fi.fid)
+        self.check_decorators(fi)
         binding = self.bind_params(fi, args, kwargs)
         saved_env, saved_frame = self.st.env, self.frame
         self.st.env = binding
